@@ -100,7 +100,7 @@ def _m(node, tmpl, env) -> bool:
             if not isinstance(nv, ast.AST) or not _m(nv, tv, env):
                 return False
         else:
-            if isinstance(tv, str) and field in ("id", "arg", "name") and tv.startswith("L_"):
+            if isinstance(tv, str) and field in ("id", "arg", "name", "attr") and tv.startswith("L_"):
                 if tv in env:
                     if env[tv] != nv:
                         return False
